@@ -3,6 +3,8 @@ import tops
 from engine import EngineClient
 from reactor import components
 from props.c03 import WakeC, WakeOpt
+from props.c10 import ElasticC
+from props.c11 import LinkedList
 
 
 class WakeOrder(WakeC):
@@ -19,7 +21,7 @@ class WakeOrderOpt(WakeOpt):
 
 
 def main(tier, replay):
-    return tops.run("C02", components(['stream']) + [WakeOrder(), WakeOrderOpt(), EngineClient()], tier,
+    return tops.run("C02", components(['stream']) + [WakeOrder(), WakeOrderOpt(), EngineClient(), ElasticC(), LinkedList()], tier,
                     level_text="Props/C02.lean: toKernel ++ outbound = accepted is an invariant of every accepted round. The model is a trace acceptor over abstract FIFO buffers (justified by the C09/C10/C11 refinements); it is tied to the code by trace acceptance: one REAL event loop on real sockets runs step by step, every system call goes through a logging / fault-injecting shim, and every round's log must be accepted by the model (kernel results and handler actions are inputs, system-call requests, callbacks and method results are predictions). Independent oracles check the property end to end on the same runs",
                     assumptions=["Linux socket and epoll semantics (real kernel in the runs, inputs of the model)",
                                  "instrumentation (selector renaming to the shim, entry logging) does not change behaviour",
